@@ -76,6 +76,10 @@ def _rterm(rng, pool, depth, allow_anon=True):
             return rng.choice(_INTS)
         return NIL
     r2 = rng.random()
+    if r2 < 0.07:
+        # the same functor names with other arities (f/2, g/1, g/3): never unify with f/1, g/2
+        n = rng.choice([("f", 2), ("g", 1), ("g", 3)])
+        return fun(n[0], *[_rterm(rng, pool, depth - 1, allow_anon) for _ in range(n[1])])
     if r2 < 0.35:
         return fun("f", _rterm(rng, pool, depth - 1, allow_anon))
     if r2 < 0.55:
